@@ -133,7 +133,13 @@ class Ctx:
         z = z3.simplify(zterm)
         if z3.is_int_value(z):
             return z.as_long()
+        excluded = 0
         while True:
+            if excluded > 256:
+                # an unbounded quantity is being enumerated (e.g. formatted
+                # into a message): outside the bound, never a verdict
+                raise OutOfBound('unbounded concretization')
+            excluded += 1
             k = len(self.trace)
             if k < len(self.prefix):
                 tag, n = self.prefix[k]
